@@ -77,26 +77,27 @@ Record wstate := mkst {
   outq : list opkt;      (* _out_packet, head = left *)
   sock : bool;           (* _sock is not None *)
   regw : bool;           (* _registered_write *)
+  connq : bool;          (* _connect_queued: the CONNECT of this connection has been queued *)
   tst : T                (* state of the transport object in _sock *)
 }.
 
-Definition set_outq st q := mkst q (sock st) (regw st) (tst st).
-Definition set_tst st t := mkst (outq st) (sock st) (regw st) t.
+Definition set_outq st q := mkst q (sock st) (regw st) (connq st) (tst st).
+Definition set_tst st t := mkst (outq st) (sock st) (regw st) (connq st) t.
 
 (* if not self._sock or self._registered_write: return; self._registered_write = True; callback *)
 Definition call_reg_write (st : wstate) : wstate * list event :=
   if negb (sock st) || regw st then (st, [])
-  else (mkst (outq st) (sock st) true (tst st), [RegW]).
+  else (mkst (outq st) (sock st) true (connq st) (tst st), [RegW]).
 
 (* sock = sock or self._sock; if not sock or not self._registered_write: return; flag = False; callback *)
 Definition call_unreg_write (have_sock : bool) (st : wstate) : wstate * list event :=
   if negb have_sock || negb (regw st) then (st, [])
-  else (mkst (outq st) (sock st) false (tst st), [UnregW]).
+  else (mkst (outq st) (sock st) false (connq st) (tst st), [UnregW]).
 
 (* if not self._sock: return; sock = self._sock; self._sock = None; unregister_write(sock); on_socket_close; close *)
 Definition sock_close (st : wstate) : wstate * list event :=
   if negb (sock st) then (st, [])
-  else let '(st1, ev) := call_unreg_write true (mkst (outq st) false (regw st) (tst st)) in
+  else let '(st1, ev) := call_unreg_write true (mkst (outq st) false (regw st) (connq st) (tst st)) in
        (st1, ev ++ [SockClose]).
 
 Definition wire_ev (raw : list Z) : list event :=
@@ -190,6 +191,7 @@ Definition loop_rc_handle (st : wstate) : wstate * list event :=
 Definition loop_write (c : cfg) (st : wstate) (s : list outcome)
   : wstate * list event * rcode * list outcome :=
   if negb (sock st) then (st, [], RcNoConn, s)
+  else if negb (connq st) then (st, [], RcSuccess, s)      (* CONNECT not queued yet: it has to go out first *)
   else
     let '(st1, ev1, r, s1) := packet_write c st s in
     let '(st2, ev2, r2) :=
@@ -209,11 +211,15 @@ Definition fresh_pkt (id : Z) (bs : list Z) (k : pkind) (cbr : bool) : opkt :=
   mkpkt bs 0 (zlen bs) k id cbr.
 
 (* _packet_queue.  in_cb: _in_callback_mutex is held (the call comes from inside a user callback).
-   if command == CONNECT: self._out_packet.appendleft(mpkt) else: self._out_packet.append(mpkt) *)
+   if command == CONNECT: self._out_packet.appendleft(mpkt); self._connect_queued = True
+   else: self._out_packet.append(mpkt)
+   if self._thread is None and self._on_socket_register_write is None and self._connect_queued: (try-lock) loop_write()
+   else self._call_socket_register_write() *)
 Definition enqueue (c : cfg) (in_cb : bool) (st : wstate) (p : opkt) (s : list outcome)
   : wstate * list event * rcode * list outcome :=
-  let st1 := set_outq st (if is_conn p then p :: outq st else outq st ++ [p]) in
-  if negb (c_ext c) && negb in_cb then loop_write c st1 s
+  let st1 := if is_conn p then mkst (p :: outq st) (sock st) (regw st) true (tst st)
+             else set_outq st (outq st ++ [p]) in
+  if negb (c_ext c) && connq st1 && negb in_cb then loop_write c st1 s
   else let '(st2, ev) := call_reg_write st1 in (st2, ev, RcSuccess, s).
 
 (* ---- runs: every op carries the outcomes of the send() calls made during it ---- *)
@@ -224,7 +230,8 @@ Inductive op :=
 Record rstate := mkrs {
   r_st : wstate;
   r_trace : list event;          (* all events so far, oldest first *)
-  r_hist : list opkt;            (* packets as queued (pos = 0), oldest first; packet i has p_id = i *)
+  r_hist : list opkt;            (* the packets of this connection (pos = 0) in QUEUE order: CONNECT goes to the
+                                    front, everything else to the back; p_id = number of packets queued before *)
   r_rcs : list rcode
 }.
 
@@ -233,27 +240,32 @@ Definition step (c : cfg) (r : rstate) (o : op) : rstate :=
   | OEnq in_cb bs k cbr s =>
     let p := fresh_pkt (Z.of_nat (length (r_hist r))) bs k cbr in
     let '(st, ev, rc, _) := enqueue c in_cb (r_st r) p s in
-    mkrs st (r_trace r ++ ev) (r_hist r ++ [p]) (r_rcs r ++ [rc])
+    mkrs st (r_trace r ++ ev) (if is_conn p then p :: r_hist r else r_hist r ++ [p]) (r_rcs r ++ [rc])
   | OWrite s =>
     let '(st, ev, rc, _) := loop_write c (r_st r) s in
     mkrs st (r_trace r ++ ev) (r_hist r) (r_rcs r ++ [rc])
   end.
 
-Definition init (t0 : T) : rstate := mkrs (mkst [] true false t0) [] [] [].
+(* a new connection: reconnect() has emptied the queue, created the socket and reset _connect_queued *)
+Definition init (t0 : T) : rstate := mkrs (mkst [] true false false t0) [] [] [].
 
-(* CONNECT is the first packet queued on the connection (hypothesis of the theorems; without it see
-   C06_stream_refuted): no later operation queues a CONNECT *)
+(* at most one CONNECT is queued on a connection (reconnect() is the only caller of _send_connect and makes a
+   new connection each time); it may come after other packets - they wait, nothing is written before it *)
 Definition not_conn_op (o : op) : bool :=
   match o with OEnq _ _ KConn _ _ => false | _ => true end.
-Definition conn_first (ops : list op) : bool :=
-  match ops with [] => true | _ :: rest => forallb not_conn_op rest end.
+Fixpoint conn_ok (seen : bool) (ops : list op) : bool :=
+  match ops with
+  | [] => true
+  | o :: rest => if not_conn_op o then conn_ok seen rest else negb seen && conn_ok true rest
+  end.
+Definition conn_once (ops : list op) : bool := conn_ok false ops.
 
 Definition run (c : cfg) (t0 : T) (ops : list op) : rstate := fold_left (step c) ops (init t0).
 
 End Generic.
 
 Arguments mkst {T}.
-Arguments outq {T}. Arguments sock {T}. Arguments regw {T}. Arguments tst {T}.
+Arguments outq {T}. Arguments sock {T}. Arguments regw {T}. Arguments connq {T}. Arguments tst {T}.
 Arguments mkrs {T}.
 Arguments r_st {T}. Arguments r_trace {T}. Arguments r_hist {T}. Arguments r_rcs {T}.
 Arguments want_write {T}.
@@ -338,9 +350,9 @@ Definition enc_rc (r : rcode) : Z :=
   match r with RcSuccess => 0 | RcAgain => 1 | RcConnLost => 2 | RcNoConn => 3 | RcRaised => 4 | RcOutOfFuel => 5 end.
 Definition enc_pkt (p : opkt) : list Z := [p_id p; p_pos p; p_top p].
 
-(* per op: its events, then  9 rc sock regw want_write nq (id pos to_process)* <transport state> *)
+(* per op: its events, then  9 rc sock regw want_write connect_queued nq (id pos to_process)* <transport state> *)
 Definition enc_state {T} (tenc : T -> list Z) (rc : rcode) (st : wstate T) : list Z :=
-  [9; enc_rc rc; b2z (sock st); b2z (regw st); b2z (want_write st); Z.of_nat (length (outq st))]
+  [9; enc_rc rc; b2z (sock st); b2z (regw st); b2z (want_write st); b2z (connq st); Z.of_nat (length (outq st))]
   ++ concat (map enc_pkt (outq st)) ++ tenc (tst st).
 
 Definition last_rc (l : list rcode) : rcode := last l RcSuccess.
